@@ -57,8 +57,14 @@ impl Helper {
                 .await
                 .expect("Failed to read from storage")
             {
-                let block =
-                    bincode::deserialize(&bytes).expect("Failed to deserialize our own block");
+                // The store is shared with the mempool: the requested key may name a batch.
+                let block = match bincode::deserialize(&bytes) {
+                    Ok(block) => block,
+                    Err(e) => {
+                        warn!("Received sync request for a key that is not a block: {}", e);
+                        continue;
+                    }
+                };
                 let message = bincode::serialize(&ConsensusMessage::Propose(block))
                     .expect("Failed to serialize block");
                 self.network.send(address, Bytes::from(message)).await;
